@@ -26,6 +26,7 @@ import (
 	"net"
 	"os"
 	"path/filepath"
+	"sort"
 	"strconv"
 	"time"
 
@@ -103,6 +104,153 @@ func corpus() []*cborgen.Prog {
 	}
 }
 
+// ---- directed: Interface / Any values over the scalar kinds ----
+// Interface() documents "marshaled with InterfaceMarshalFunc": whatever the dynamic type, both builds carry
+// what the marshaler answers (or its error text).  The typed methods have their own conventions for some
+// scalars (non-finite floats are the strings NaN/+Inf/-Inf there, encoding/json refuses them), so every
+// scalar kind is sent through every entry point that ends in AppendInterface, grouped by kind.
+type namedF64 float64
+type namedInt int
+type namedStr string
+
+type valErr struct{ v interface{} }
+
+func (valErr) Error() string { return "valErr" }
+
+func ifaceGroups() map[string][]interface{} {
+	nz := math.Copysign(0, -1)
+	nan32, inf32 := float32(math.NaN()), float32(math.Inf(1))
+	f := 2.5
+	return map[string][]interface{}{
+		"nil-bool-string": {nil, true, false, "", "plain", "q\"uote \\ \n \t \u00e9 \x7f", namedStr("named")},
+		"signed":          {0, -1, 23, 24, -24, -25, int8(-128), int8(127), int16(-32768), int32(math.MinInt32), int64(math.MinInt64), int64(math.MaxInt64), int(1) << 53, namedInt(-7)},
+		"unsigned":        {uint(0), uint8(255), uint16(65535), uint32(math.MaxUint32), uint64(1) << 63, uint64(math.MaxUint64), uint(1<<63 + 1), uintptr(9)},
+		"float64-finite":  {0.0, nz, 1.5, -2.5, 0.1, 1e21, 1e20, 1e-6, 1e-7, 5e-324, math.MaxFloat64, -math.MaxFloat64, float64(1 << 53), namedF64(0.25)},
+		"float64-nonfinite": {math.NaN(), math.Inf(1), math.Inf(-1), math.Float64frombits(0xfff8000000000001), namedF64(math.NaN()), namedF64(math.Inf(-1))},
+		"float32-finite":    {float32(0), float32(nz), float32(1.5), float32(0.1), float32(16777216), float32(math.MaxFloat32), float32(math.SmallestNonzeroFloat32), float32(1e21), float32(1e-7)},
+		"float32-nonfinite": {nan32, inf32, -inf32, math.Float32frombits(0xffc00001)},
+		"composite":         {[]float64{1, math.NaN()}, map[string]float64{"x": math.Inf(1)}, []float32{inf32}, &f, struct{ F float64 }{math.NaN()}, []interface{}{nil, 1, "s", 2.5, true}, [2]bool{true, false}, complex(1, 2)},
+	}
+}
+
+func ifaceSweep() []*cborgen.Prog {
+	var ps []*cborgen.Prog
+	groups := ifaceGroups()
+	var names []string
+	for n := range groups {
+		names = append(names, n)
+	}
+	sort.Strings(names)
+	key := func(i int) string { return fmt.Sprintf("v%d", i) }
+	for _, gn := range names {
+		vals := groups[gn]
+		members := func() []cborgen.KV {
+			out := make([]cborgen.KV, len(vals))
+			for i, v := range vals {
+				out[i] = cborgen.KIface(key(i), v)
+			}
+			return out
+		}
+		elems := func() []cborgen.KV {
+			out := make([]cborgen.KV, len(vals))
+			for i, v := range vals {
+				out[i] = cborgen.KIface("", v)
+			}
+			return out
+		}
+		tail := cborgen.KUint("after", 1)
+		ps = append(ps,
+			cborgen.Fixed("Interface over "+gn, nil, func(e *zerolog.Event) *zerolog.Event {
+				for i, v := range vals {
+					e = e.Interface(key(i), v)
+				}
+				return e.Int("after", 1)
+			}, nil, func() []cborgen.KV { return append(members(), tail) }),
+			cborgen.Fixed("Any over "+gn, nil, func(e *zerolog.Event) *zerolog.Event {
+				for i, v := range vals {
+					e = e.Any(key(i), v)
+				}
+				return e.Int("after", 1)
+			}, nil, func() []cborgen.KV { return append(members(), tail) }),
+			cborgen.Fixed("Context.Interface / Context.Any over "+gn, func(c zerolog.Context) zerolog.Context {
+				for i, v := range vals {
+					if i%2 == 0 {
+						c = c.Interface(key(i), v)
+					} else {
+						c = c.Any(key(i), v)
+					}
+				}
+				return c
+			}, func(e *zerolog.Event) *zerolog.Event { return e.Int("after", 1) }, members, func() []cborgen.KV { return []cborgen.KV{tail} }),
+			cborgen.Fixed("Arr().Interface over "+gn, func(c zerolog.Context) zerolog.Context {
+				a := zerolog.Arr()
+				for _, v := range vals {
+					a = a.Interface(v)
+				}
+				return c.Array("ca", a)
+			}, func(e *zerolog.Event) *zerolog.Event {
+				a := zerolog.Arr()
+				for _, v := range vals {
+					a = a.Interface(v)
+				}
+				return e.Array("a", a).Int("after", 1)
+			}, func() []cborgen.KV { return []cborgen.KV{cborgen.KArr("ca", elems()...)} },
+				func() []cborgen.KV { return []cborgen.KV{cborgen.KArr("a", elems()...), tail} }),
+			cborgen.Fixed("Dict().Interface over "+gn, nil, func(e *zerolog.Event) *zerolog.Event {
+				d := zerolog.Dict()
+				for i, v := range vals {
+					d = d.Interface(key(i), v)
+				}
+				return e.Dict("d", d).Int("after", 1)
+			}, nil, func() []cborgen.KV { return []cborgen.KV{cborgen.KDict("d", members()...), tail} }),
+			// an error whose ErrorMarshalFunc answer is the value: AnErr / Err / Fields send it to Interface
+			cborgen.Fixed("AnErr + Fields(error) with ErrorMarshalFunc answering a value of "+gn, nil, func(e *zerolog.Event) *zerolog.Event {
+				old := zerolog.ErrorMarshalFunc
+				defer func() { zerolog.ErrorMarshalFunc = old }()
+				zerolog.ErrorMarshalFunc = func(err error) interface{} {
+					if x, ok := err.(valErr); ok {
+						return x.v
+					}
+					return err
+				}
+				for i, v := range vals {
+					if v == nil || isStringish(v) {
+						continue
+					}
+					e = e.AnErr(key(i), valErr{v}).Fields([]interface{}{key(i) + "f", valErr{v}})
+				}
+				return e.Int("after", 1)
+			}, nil, func() []cborgen.KV {
+				var out []cborgen.KV
+				for i, v := range vals {
+					if v == nil || isStringish(v) {
+						continue
+					}
+					out = append(out, cborgen.KIface(key(i), v), cborgen.KIface(key(i)+"f", v))
+				}
+				return append(out, tail)
+			}),
+		)
+	}
+	// the typed twins: the same non-finite floats through the typed methods and the Fields type switch keep
+	// the typed convention in both builds
+	nan, inf := math.NaN(), math.Inf(1)
+	ps = append(ps, cborgen.Fixed("Float64/Float32/Fields typed non-finite", nil, func(e *zerolog.Event) *zerolog.Event {
+		return e.Float64("a", nan).Float64("b", inf).Float64("c", -inf).Float32("d", float32(nan)).Float32("e", float32(-inf)).
+			Fields([]interface{}{"f", nan, "g", float32(inf)})
+	}, nil, func() []cborgen.KV {
+		return []cborgen.KV{cborgen.KF64("a", nan), cborgen.KF64("b", inf), cborgen.KF64("c", -inf), cborgen.KF32("d", float32(nan)), cborgen.KF32("e", float32(-inf)),
+			cborgen.KF64("f", nan), cborgen.KF32("g", float32(inf))}
+	}))
+	return ps
+}
+
+// strings answered by ErrorMarshalFunc are written as text, not through Interface
+func isStringish(v interface{}) bool {
+	_, ok := v.(string)
+	return ok
+}
+
 func longBytes(n, mode int) []byte {
 	b := make([]byte, n)
 	alphabet := []byte("a\"b\\c\n\xff\x00\xc3\xa9 ")
@@ -146,7 +294,7 @@ func decodeReal(in []byte) (out []byte, errText string) {
 }
 
 func programs(c *Ctx) []*cborgen.Prog {
-	ps := corpus()
+	ps := append(corpus(), ifaceSweep()...)
 	n := 1200
 	if c.Thorough() {
 		n = 20000
